@@ -345,6 +345,24 @@ impl<'ast, 's> Visit<'ast> for Finder<'s> {
             // ---- R13f: `for PAT in ITER BODY` over an iterator value
             syn::Expr::ForLoop(f) if self.on("R13f") && !matches!(&*f.pat, syn::Pat::Wild(_)) => {
                 let label = f.label.as_ref().map(|l| format!("{} ", self.txt(l))).unwrap_or_default();
+                // `for (i, x) in E.into_iter().enumerate()`: the index is the iterator's position
+                if let (syn::Pat::Tuple(tp), syn::Expr::MethodCall(en)) = (&*f.pat, &*f.expr) {
+                    if tp.elems.len() == 2 && en.method == "enumerate" && en.args.is_empty() {
+                        let inner = match &*en.receiver {
+                            syn::Expr::MethodCall(ii) if ii.method == "into_iter" && ii.args.is_empty() => self.txt(&*ii.receiver),
+                            other => self.txt(other),
+                        };
+                        let rep = format!(
+                            "{{ let mut __it = into_iter_shim({}); {label}loop {{ let __idx = __it.pos; match __it.next() {{ Some({}) => {{ let {} = __idx; {} }} None => break, }} }} }}",
+                            inner,
+                            self.txt(&tp.elems[1]),
+                            self.txt(&tp.elems[0]),
+                            self.txt(&f.body)
+                        );
+                        self.push(range_of(f), rep, "R13f");
+                        return;
+                    }
+                }
                 let rep = format!(
                     "{{ let mut __it = into_iter_shim({}); {label}loop {{ match __it.next() {{ Some({}) => {} None => break, }} }} }}",
                     self.txt(&*f.expr),
